@@ -102,22 +102,22 @@ Lemma cmd_env_nonempty mode uid net mount e : e <> [] -> cmd_env mode uid net mo
 Proof. unfold cmd_env. intros He H. apply app_eq_nil in H as [_ H]. exact (He H). Qed.
 
 (* a non-empty cmd.Env cuts the process off from the parent's environment *)
-Lemma child_env_indep c1 c2 l : l <> [] -> child_env c1 l = child_env c2 l.
+Lemma child_env_indep c1 c2 d1 d2 l : l <> [] -> child_env c1 d1 l = child_env c2 d2 l.
 Proof. destruct l; [intros H; now destruct H|reflexivity]. Qed.
 
-Lemma action_env_indep mode uid net mount c1 c2 e :
-  e <> [] -> action_env mode uid net mount c1 e = action_env mode uid net mount c2 e.
+Lemma action_env_indep mode uid net mount c1 c2 d1 d2 e :
+  e <> [] -> action_env mode uid net mount c1 d1 e = action_env mode uid net mount c2 d2 e.
 Proof.
   intros He. unfold action_env.
-  now rewrite (child_env_indep c1 c2 _ (cmd_env_nonempty mode uid net mount e He)).
+  now rewrite (child_env_indep c1 c2 d1 d2 _ (cmd_env_nonempty mode uid net mount e He)).
 Qed.
 
 (* The environment of the action's PROCESS - sandboxed by the built-in sandbox, by an external tool, or not at all -
    is determined by configuration, target and the listed caller variables. *)
 Lemma action_env_determined mode uid net mount sx cfg t tmp c1 c2 e1 e2 :
   NoDup (map fst (t_env t)) -> Permutation e1 (t_env t) -> Permutation e2 (t_env t) -> agree c1 c2 (reads cfg t) ->
-  action_env mode uid net mount c1 (build_env_sb sx cfg (with_env t e1) tmp c1)
-  = action_env mode uid net mount c2 (build_env_sb sx cfg (with_env t e2) tmp c2).
+  action_env mode uid net mount c1 tmp (build_env_sb sx cfg (with_env t e1) tmp c1)
+  = action_env mode uid net mount c2 tmp (build_env_sb sx cfg (with_env t e2) tmp c2).
 Proof.
   intros Hnd P1 P2 Ha.
   rewrite (determined_sb sx cfg t tmp c1 c2 e1 e2 Hnd P1 P2 Ha).
@@ -149,7 +149,7 @@ Proof.
   induction e as [|[k' v] e IH]; cbn [map lookup fst snd]; [reflexivity|]. destruct (str_eqb k k'); [reflexivity|exact IH].
 Qed.
 
-Lemma child_env_lookup caller l k : l <> [] -> lookup k (child_env caller l) = entry_of k l.
+Lemma child_env_lookup caller dir l k : l <> [] -> lookup k (child_env caller dir l) = entry_of k l.
 Proof.
   intros Hl. destruct l as [|x l]; [now destruct Hl|]. unfold child_env, dedup. rewrite lookup_add.
   cbn [lookup]. now destruct (entry_of k (x :: l)).
@@ -166,14 +166,14 @@ Proof.
     exact (lookup_map_values (replace_all (c :: d) SANDBOX_DIR) k e).
 Qed.
 
-Lemma action_env_lookup mode uid net mount caller e a :
-  e <> [] -> action_env mode uid net mount caller e = Some a ->
+Lemma action_env_lookup mode uid net mount caller dir e a :
+  e <> [] -> action_env mode uid net mount caller dir e = Some a ->
   exists f : str -> str, forall k,
     lookup k a = option_map f (match entry_of k e with Some v => Some v
                                                   | None => entry_of k (exec_preset mode uid net mount) end).
 Proof.
   intros He. unfold action_env.
-  assert (Hc : forall k, lookup k (child_env caller (cmd_env mode uid net mount e))
+  assert (Hc : forall k, lookup k (child_env caller dir (cmd_env mode uid net mount e))
                          = match entry_of k e with Some v => Some v | None => entry_of k (exec_preset mode uid net mount) end).
   { intros k. rewrite child_env_lookup by now apply cmd_env_nonempty. unfold cmd_env. apply entry_of_app. }
   destruct mode.
@@ -190,11 +190,11 @@ Qed.
 
 (* no variable is visible to the action's process that is neither a key of the environment map nor one of the (at most
    three) fixed sandbox control variables *)
-Lemma action_env_keys mode uid net mount caller e a k v :
-  e <> [] -> action_env mode uid net mount caller e = Some a -> lookup k a = Some v ->
+Lemma action_env_keys mode uid net mount caller dir e a k v :
+  e <> [] -> action_env mode uid net mount caller dir e = Some a -> lookup k a = Some v ->
   In k (map fst e) \/ In k (map fst (exec_preset mode uid net mount)).
 Proof.
-  intros He Ha Hk. destruct (action_env_lookup _ _ _ _ _ _ _ He Ha) as [f Hf]. rewrite Hf in Hk.
+  intros He Ha Hk. destruct (action_env_lookup _ _ _ _ _ _ _ _ He Ha) as [f Hf]. rewrite Hf in Hk.
   destruct (entry_of k e) eqn:E1; [left; exact (entry_of_in _ _ _ E1)|].
   destruct (entry_of k (exec_preset mode uid net mount)) eqn:E2; [right; exact (entry_of_in _ _ _ E2)|discriminate].
 Qed.
@@ -204,13 +204,13 @@ Qed.
 Example seeded_parent_env_leaks :
   let e := [(s "TMP_DIR", s "/r/t"); (s "NAME", s "t")] in
   let caller := [(s "CI_JOB_TOKEN", s "hunter2")] in
-  (exists a, action_env SbBuiltin (s "0") true true caller e = Some a /\ lookup (s "CI_JOB_TOKEN") a = None
+  (exists a, action_env SbBuiltin (s "0") true true caller (s "/r/t") e = Some a /\ lookup (s "CI_JOB_TOKEN") a = None
              /\ lookup (s "TMP_DIR") a = Some SANDBOX_DIR /\ lookup (s "SHARE_MOUNT") a = Some (s "0"))
-  /\ (exists a, sandbox_process (child_env [] (caller ++ cmd_env SbBuiltin (s "0") true true e)) = Some a
+  /\ (exists a, sandbox_process (child_env [] (s "/r/t") (caller ++ cmd_env SbBuiltin (s "0") true true e)) = Some a
              /\ lookup (s "CI_JOB_TOKEN") a = Some (s "hunter2")).
 Proof. split; eexists; vm_compute; repeat split; reflexivity. Qed.
 
-(* an empty list is NOT hermetic (os/exec inherits): the hypothesis e <> [] is needed, and holds for every build *)
+(* an empty list is NOT hermetic (os/exec inherits, and adds PWD): the hypothesis e <> [] is needed, and holds for every build *)
 Example empty_env_inherits :
-  action_env SbNone [] false false [(s "LEAK", s "x")] [] = Some [(s "LEAK", s "x")].
+  action_env SbNone [] false false [(s "LEAK", s "x")] (s "/d") [] = Some [(s "LEAK", s "x"); (s "PWD", s "/d")].
 Proof. reflexivity. Qed.
